@@ -6,6 +6,8 @@ import (
 	"reflect"
 	"testing"
 
+	"github.com/iotaledger/hive.go/ds/serializableorderedmap"
+
 	"verifharness/hx"
 	"verifsim/simrt"
 )
@@ -51,6 +53,10 @@ func faultdecodeBody(s *simrt.Sim) {
 // workload with their own signatures.
 
 func maporderBody(s *simrt.Sim) {
+	if s.Choose(8) == 7 {
+		somapRoundtrip(s)
+		return
+	}
 	// entries with maps are preferred
 	var e *entry
 	if s.Choose(4) > 0 {
@@ -83,6 +89,7 @@ func maporderBody(s *simrt.Sim) {
 		dst := reflect.New(e.rt)
 		var n int
 		var err error
+		keep := append([]byte{}, b1...)
 		if panicked, pv := hx.Try(func() { s.Atomic(func() { n, err = api.Decode(ctx, b1, dst.Interface(), valOpts(validate)...) }) }); panicked {
 			s.Fail("serix-roundtrip", "panic:Decode:"+e.name+":"+panicClass(pv), "Decode(validate=%v) of a valid %s encoding panicked: %v\nencoding: %x", validate, e.name, pv, clip(b1))
 		}
@@ -91,6 +98,9 @@ func maporderBody(s *simrt.Sim) {
 		}
 		if d := same(want.Elem(), dst.Elem(), e.name); d != "" {
 			s.Fail("serix-roundtrip", "value:"+e.name, "decoded %s value differs from the encoded one: %s", e.name, d)
+		}
+		if !bytes.Equal(keep, b1) {
+			s.Fail("serix-roundtrip", "Decode-modifies-input:"+e.name, "Decode(validate=%v) of a valid %s encoding changed the bytes it was given (a second Decode of the caller's buffer no longer sees what Encode produced)\nbefore: %x\nafter:  %x", validate, e.name, clip(keep), clip(b1))
 		}
 	}
 	if !e.json {
@@ -179,5 +189,76 @@ func refencBody(s *simrt.Sim) {
 	}
 	if d := same(want.Elem(), dst.Elem(), e.name); d != "" {
 		s.Fail("wire-format", "decode-of-reference-value:"+e.name, "value decoded from the reference encoding differs: %s", d)
+	}
+}
+
+// somapRoundtrip: C01 for the custom Serializable ds/serializableorderedmap (an anchor of C01): Encode then Decode
+// yields the same entries in the same order and reports the number of bytes produced; values are byte slices (and
+// strings), so that a decoder that reuses or aliases a decode target between entries shows.
+func somapRoundtrip(s *simrt.Sim) {
+	switch s.Choose(4) {
+	case 0:
+		somapRT[Name](s, "name", func() Name { return Name(genStringBytes(s, 1, 6)) }, func(a, b Name) bool { return a == b })
+	case 1:
+		somapRT[Blob](s, "blob", func() Blob { return Blob(genStringBytes(s, 0, 6)) }, func(a, b Blob) bool { return bytes.Equal(a, b) })
+	case 2:
+		somapRT[U16s](s, "u16s", func() U16s {
+			v := U16s{}
+			for n := s.Choose(4); n > 0; n-- {
+				v = append(v, uint16(genBits(s, 16)))
+			}
+			return v
+		}, func(a, b U16s) bool { return reflect.DeepEqual(append(U16s{}, a...), append(U16s{}, b...)) })
+	default:
+		somapRT[*Circle](s, "ptr", func() *Circle { return &Circle{R: uint16(genBits(s, 16))} }, func(a, b *Circle) bool { return a != nil && b != nil && *a == *b })
+	}
+}
+
+func somapRT[V any](s *simrt.Sim, kind string, genV func() V, eq func(a, b V) bool) {
+	m := serializableorderedmap.New[uint16, V]()
+	var keys []uint16
+	var vals []V
+	cnt := s.Choose(5)
+	s.Atomic(func() {
+		for i := 0; i < cnt; i++ {
+			k := uint16(genBits(s, 16))
+			if _, has := m.Get(k); has {
+				continue
+			}
+			v := genV()
+			m.Set(k, v)
+			keys, vals = append(keys, k), append(vals, v)
+		}
+	})
+	var data []byte
+	var err error
+	s.Atomic(func() { data, err = m.Encode(api) })
+	if err != nil {
+		s.Fail("encode-accepts", "SerializableOrderedMap.Encode:"+kind, "Encode failed: %v", err)
+	}
+	data = append([]byte{}, data...)
+	keep := append([]byte{}, data...)
+	s.Logf("somap kind=%s entries=%d data(%d)=%x", kind, len(keys), len(data), clip(data))
+	out := serializableorderedmap.New[uint16, V]()
+	var n int
+	if panicked, pv := hx.Try(func() { s.Atomic(func() { n, err = out.Decode(api, data) }) }); panicked {
+		s.Fail("serix-roundtrip", "panic:SerializableOrderedMap.Decode:"+kind+":"+panicClass(pv), "Decode of a valid encoding panicked: %v", pv)
+	}
+	if err != nil || n != len(data) {
+		s.Fail("serix-roundtrip", "SerializableOrderedMap.Decode:"+kind, "Decode of a valid encoding returned n=%d (len %d) err=%v", n, len(data), err)
+	}
+	if !bytes.Equal(keep, data) {
+		s.Fail("serix-roundtrip", "Decode-modifies-input:somap-"+kind, "Decode changed the bytes it was given\nbefore: %x\nafter:  %x", clip(keep), clip(data))
+	}
+	i := 0
+	out.ForEach(func(k uint16, v V) bool {
+		if i >= len(keys) || k != keys[i] || !eq(v, vals[i]) {
+			s.Fail("serix-roundtrip", "value:somap-"+kind, "entry %d of the decoded map is (%v,%v); encoded were keys %v values %v", i, k, v, keys, vals)
+		}
+		i++
+		return true
+	})
+	if i != len(keys) {
+		s.Fail("serix-roundtrip", "value:somap-"+kind, "decoded map has %d entries, encoded were %d", i, len(keys))
 	}
 }
